@@ -31,10 +31,15 @@ func (c *vfChain) GetHashByNo(no types.BlockNo) ([]byte, error) {
 	if no > c.best {
 		return nil, errVfNoBlock
 	}
+	again := false
 	for _, prev := range c.asked {
-		vf.Assert(prev != no, "C17.a") // a height is never probed twice (the search interval strictly shrinks)
+		again = vf.Or(again, prev == no)
 	}
+	vf.Assert(!again, "C17.a")            // a height is never probed twice (the search interval strictly shrinks)
 	vf.Assert(len(c.asked) < 70, "C17.a") // and the search terminates: at most 64 probes for any range
+	if again || len(c.asked) >= 70 {
+		return nil, errVfNoBlock // (keeps a non-terminating search finite in the native replay)
+	}
 	h := vf.Bytes("localHash", 32)
 	c.asked = append(c.asked, no)
 	c.hashes = append(c.hashes, h)
